@@ -12,6 +12,7 @@ import (
 	"verif/internal/corpus"
 	"verif/internal/lab"
 	"verif/internal/model/jsonmap"
+	"verif/internal/oas"
 	"verif/internal/values"
 )
 
@@ -196,7 +197,7 @@ func c05(c *Ctx) {
 						}
 					}
 					if len(hs) != 1 {
-						c.R.Violate(caseID, "contract-form-rejected", fmt.Sprintf("st%d", resp.Status), rp)
+						c.R.Violate(caseID, "contract-form-rejected", fmt.Sprintf("st%d %s", resp.Status, rejectReason(resp.Body)), rp)
 					} else {
 						got := dynamicpb.NewMessage(ctxMD)
 						_ = proto.Unmarshal(unb64(hs[0].Str("req")), got)
@@ -213,6 +214,9 @@ func c05(c *Ctx) {
 	for _, pn := range p.Panics {
 		c.R.Harness("driver panic in work item: " + firstLines(pn, 12))
 	}
+	// the same annotated types declared in an imported file (generated together or one invocation
+	// per file) must produce the JSON of the single-file definition that was judged above
+	c04split(c, "c05x", "json-split")
 	nr, reps := lab.RaceReports(c.Scratch + "/race-c05")
 	c.R.Count("race_reports", nr)
 	for _, r := range reps {
@@ -222,4 +226,18 @@ func c05(c *Ctx) {
 
 func depthOf(ptr string) string {
 	return fmt.Sprintf("depth-%s", []string{"zero", "one", "two", "three", "four", "five+"}[min(strings.Count(ptr, "/"), 5)])
+}
+
+// rejectReason extracts the decoder's reason from a 400 body (first violation description).
+func rejectReason(body []byte) string {
+	t, err := jsonmap.Parse(body)
+	if err != nil {
+		return ""
+	}
+	for _, v := range oas.L(oas.M(jsonmap.Resolve(t))["violations"]) {
+		d := oas.S(oas.M(v)["description"])
+		d = strings.TrimPrefix(d, "failed to parse request body: ")
+		return d
+	}
+	return ""
 }
